@@ -71,6 +71,47 @@ def _validate(ctx, tr, label):
     return rejected
 
 
+def _expect_hol_counterexample(ctx):
+    """MCMuxHOL.cfg: the named deviation of Mux.tla.  With one agent not dequeuing, TLC must find the
+    head-of-line-blocking counterexample to HOLFree while the safety invariants hold."""
+    rc, out, dt = ctx._tlc("net", "MCMux", "MCMuxHOL.cfg", 2, 600, None, [], "mc_MCMux_HOL")
+    gen, dist = ctx._stats(out)
+    violated = "Temporal property HOLFree was violated" in out or "Temporal properties were violated" in out
+    other = ("Invariant" in out and "is violated" in out) or "Deadlock reached" in out or "Parsing or semantic analysis failed" in out
+    if not violated or other:
+        print("\n".join(out.splitlines()[-30:]))
+        raise vlib.ToolError("MCMuxHOL: expected exactly the head-of-line-blocking counterexample to HOLFree")
+    stuck = [ln.strip() for ln in out.splitlines() if ln.startswith("State ") and "<" in ln]
+    ctx.cov["states"] += dist
+    ctx.cov["transitions"] += gen
+    ctx.cov["tlc_runs"].append({"module": "MCMux", "cfg": "MCMuxHOL.cfg", "distinct": dist, "generated": gen, "wall_s": round(dt, 1),
+                                "expected_counterexample": "HOLFree violated (head-of-line blocking), %d-state lasso prefix" % len(stuck)})
+    ctx.log("TLC MCMux/MCMuxHOL.cfg: HOLFree violated as documented (%d distinct states), %.1fs" % (dist, dt))
+
+
+def _tracemux(ctx, binary):
+    """Thorough tier, DRIFT only: one-run logs with call intervals validated against the design model Mux.tla
+    (real capacities 100/100, silent MuxTick/DemuxRead/DemuxDeliver steps)."""
+    res = []
+    for k in range(2):
+        tr = ctx.path("tracemux%d.ndjson" % k)
+        ctx.run_bin(binary, ["mux-trace", "--seed", ctx.seed + 500 + k, "--runs", 1, "--runs2", 0, "--chunks", 150, "--detail", 1, "--out", tr])
+        ok, matched, total, first = ctx.tlc_trace("net", "TraceMux", "TraceMux.cfg", tr, timeout=1500)
+        res.append({"log": os.path.basename(tr), "events": total, "matched": matched, "accepted": ok})
+        if not ok:
+            ctx.notes.append("DRIFT (TraceMux, not a C20 verdict): event %d of %s does not fit the design model Mux.tla with "
+                             "capacities 100/100: %s" % (matched + 1, os.path.basename(tr), json.dumps(first)[:200]))
+        if k == 0:
+            # sensitivity: the same log against a model whose egress queues hold 20 chunks must not fit
+            cfg = ctx.path("TraceMuxE20.cfg")
+            open(cfg, "w").write(open(os.path.join(vlib.SPEC, "net", "TraceMux.cfg")).read().replace("E = 100", "E = 20"))
+            ok2, m2, t2, _ = ctx.tlc_trace("net", "TraceMux", cfg, tr, timeout=1500, count=False)
+            res.append({"log": os.path.basename(tr), "variant": "E = 20 (must be rejected)", "matched": m2, "accepted": ok2})
+            if ok2:
+                ctx.notes.append("DRIFT machinery note: TraceMux accepted the pressure log with E = 20; it did not exercise a full queue")
+    ctx.cov["tracemux"] = res
+
+
 def run(ctx):
     binary = ctx.build("pv-net")
     ctx.assume("a chunk is identified by (embedded sender id, sequence number, length, 30-bit FNV checksum of its bytes); "
@@ -89,6 +130,7 @@ def run(ctx):
         cfg = _cfg(ctx, "MCMuxQuick.cfg", [("QA2 = 2", "QA2 = 1")])
         ctx.tlc_mc("net", "MCMux", cfg, workers=4, timeout=900, required_actions=MC_ACTIONS)
     ctx.tlc_mc("net", "MCMux", "MCMuxLive.cfg", workers=2, required_actions=MC_ACTIONS)
+    _expect_hol_counterexample(ctx)
 
     # 2. M3 on the real multiplexers
     runs, runs2, chunks = (24, 8, 200) if ctx.thorough else (5, 2, 200)
@@ -141,10 +183,16 @@ def run(ctx):
                 rows[a], rows[b] = rows[b], rows[a]
                 variant("swap deq events %d and %d of one channel" % (a + 1, b + 1), rows, expect_at=a)
 
+    # 4. thorough: the same kind of log against the design model with silent steps (DRIFT only)
+    if ctx.thorough and not rejected:
+        _tracemux(ctx, binary)
+
     return ctx.finish(
         rule="MC: Mux.tla (two sides, shared bounded ingress, wire, demuxer hand, per-subscription egress) exhaustively for "
              "InOrderExactlyOnce / CompleteAtQuiescence / NoLeak / Conservation / HeadersFaithful, liveness under fairness on a "
              "smaller instance; M3: merged ticket-ordered logs of two real Plexers over a Unix socket pair (multi-thread runtime, "
              "random topologies, chunks 0..65535 bytes, back-pressure) and of the network2 bearer, validated by TLC against "
-             "MuxProps.tla (Deq only as the next undelivered chunk of the paired sender; everything delivered at quiescence)",
+             "MuxProps.tla (Deq only as the next undelivered chunk of the paired sender; everything delivered at quiescence); "
+             "head-of-line blocking recorded as an expected liveness counterexample (MCMuxHOL.cfg); thorough: one-run logs with "
+             "call intervals replayed against Mux.tla with capacities 100/100 and silent muxer/demuxer steps (TraceMux, DRIFT only)",
         exhaustive=False)
